@@ -31,3 +31,12 @@ Definition table_interpolate (t : list Q) (grid : list Q) : list (option Q) := m
 (* resampled table of a rebin by integer factor f on an axis of length d *)
 Definition rebin_table (t : list Q) (d f : Q) : list (option Q) :=
   table_interpolate t (resample_grid (rebin_offset f) d f).
+
+(* ---- WCS-backed extra coords (ExtraCoords.resample): factors and offsets are given per ARRAY axis of the cube; pixel
+        dimension j of the extra WCS is the cube's pixel axis pm[j], i.e. array axis n-1-pm[j], and is handed the
+        factor and offset of that axis.  The mapping itself is carried over unchanged. *)
+Definition ec_param (n : nat) (pm : list nat) (per_axis : list Q) : list Q := map (fun p => nth (n - 1 - p) per_axis 0) pm.
+(* the position, in the extra WCS's pixel dimensions, of the cube position E (array order) *)
+Definition ec_pixel (n : nat) (pm : list nat) (E : list Q) : list Q := map (fun p => nth (n - 1 - p) E 0) pm.
+Definition ec_resampled (W : list Q -> list Q) (n : nat) (pm : list nat) (factor offset : list Q) : list Q -> list Q :=
+  fun p => W (scale (ec_param n pm factor) (ec_param n pm offset) p).
